@@ -17,6 +17,7 @@
   correspondence check's malformed stream, not proved.
 -/
 import Z80.Props.C06
+import Z80.Proofs.FrameB
 import Z80.Spec.KoronIM0
 import Z80.Proofs.Families.Invalid
 
@@ -81,6 +82,31 @@ theorem C12_step_im0 (s : St) (i : Interrupt) (hi : s.Interrupt = some i) (hm : 
   rcases hd with ⟨b, hb, h⟩ | ⟨lo, hi', h⟩
   · rw [C06.C06_im0_rst s i hi hm hn hf him b hb h, hk]; exact stepKF_im0_total s i.Data
   · rw [C06.C06_im0_call s i hi hm hn hf him lo hi' h, hk]; exact stepKF_im0_total s i.Data
+
+
+/-- THE unconditional totality theorem: for EVERY state with the user memory installed — any pending request
+    whatsoever, mode 0 with ANY supplied bytes included — Step returns normally -/
+theorem C12_step_all (s : St) (hm : s.Memory = .user) : ∃ t, Gen.Step s = .ok () t := by
+  cases hi : s.Interrupt with
+  | none => exact C12_step s hm (fun i h => by rw [hi] at h; cases h)
+  | some i =>
+    by_cases h0 : i.Type_ ≠ 0 ∧ s.IFF1 = true ∧ s.IM = 0 ∧ i.Data ≠ []
+    · exact step_im0_total s i hi h0.1 h0.2.1 h0.2.2.1 h0.2.2.2
+    · refine C12_step s hm (fun j hj => ?_)
+      rw [hi] at hj; cases hj
+      by_cases hn : i.Type_ = 0
+      · exact .inl hn
+      by_cases hf : s.IFF1 = false
+      · exact .inr (.inl hf)
+      by_cases him : s.IM = 0
+      · right; right; right
+        by_cases hd : i.Data = []
+        · exact hd
+        · exact absurd ⟨hn, by simpa using hf, him, hd⟩ h0
+      · exact .inr (.inr (.inl him))
+/-- the instruction interpreter itself never panics — EVERY state and EVERY Memory value (user memory, the mode-0
+    overlay, nested overlays): every decode arm over every bus -/
+theorem C12_executeOne_total (s : St) : ∃ t, Gen.executeOne s = .ok () t := gen_executeOne_total s
 
 /-- with no request pending the Memory value is kept, so totality holds for every following Step as well -/
 theorem C12_steps_noint (s : St) (hm : s.Memory = .user) (hi : s.Interrupt = none) :
